@@ -14,9 +14,13 @@ source text:
   `derive(ZeroizeOnDrop)`) that overwrites every secret field;
 * `zeroize_resets`    — every `impl Zeroize` body is of an accepted shape and its abstract execution yields the
   specified reset state (scalar 0, Edwards/Ristretto identity, identity encodings, …), for every backend copy;
-* `heap_wiped`, `ct_vecs_accounted` — every secret-derived `Vec` of Straus `multiscalar_mul` (serial and vector
-  copy) and of `Scalar::batch_invert` is wiped, by a top-level statement with no use after it and no early exit
-  before it, or by a `Zeroizing` wrapper; every other `Vec` local of those functions is declared public.
+* `heap_wiped` — every secret-derived `Vec` of Straus `multiscalar_mul` (serial and vector copy) and of
+  `Scalar::batch_invert` is wiped, by a top-level statement with no use after it and no early exit before it, or
+  by a `Zeroizing` wrapper;
+* `ct_vecs_accounted`, `secret_heap_is_obligation`, `ct_path_scanned` — **every** heap-allocating local of
+  **every** non-test function of the three crates (so in particular of every function on the constant-time call
+  paths) is either wiped or classified by hand as not secret-derived, and the set of such locals is exactly the
+  expected one.
 
 A change of the sources that removes a `zeroize()` call, adds an un-wiped `Vec`, adds a field to a secret type
 without erasing it, or changes a `zeroize` body to an unknown shape makes these theorems fail to build.
@@ -144,13 +148,36 @@ theorem heap_wiped :
       o.vec ∈ w.wiped ∧ w.gate = zeroizeGate ∧ w.usesAfterWipe = 0 ∧ w.exitsBeforeWipe = 0 := by
   decide +kernel
 
-/-- **Every `Vec` local of the inventoried functions is accounted for**: it is wiped, or the specification
-declares it public (with a reason), or the whole function carries no obligation (variable-time API / not a scalar
-function).  A new `Vec` local in the constant-time code must be classified before this builds again. -/
+/-- **Every heap allocation of the non-test code is accounted for, and the set is exactly the expected one.**
+
+1. Every heap-allocating local (`Vec`, `vec![]`, `.collect()`, `.to_vec()`, `Box`, `String`, …; at any nesting
+   depth; un-named allocations as `<expr> …`) of every non-test function of the three crates has an entry in the
+   hand-written `heapSpec`; if the entry says it is secret-derived, the regenerated fact says it is wiped, with no
+   use after the wipe and no early exit before it.
+2. Conversely every `heapSpec` entry corresponds to an allocation that is really there.
+
+A new allocation anywhere — e.g. collecting the scalar iterator into a `Vec` in
+`impl MultiscalarMul for EdwardsPoint` before the backend dispatch — makes (1) fail until it is classified. -/
 theorem ct_vecs_accounted :
-    ∀ w ∈ wipeFacts,
-      (∃ e ∈ noObligationFuncs, e.1 = w.file ∧ e.2.1 = w.func) ∨
-      (∀ v ∈ w.vecLocals, v ∈ w.wiped ∨ ∃ e ∈ publicVecs, e.1 = w.file ∧ e.2.1 = w.func ∧ e.2.2.1 = v) := by
+    (∀ w ∈ wipeFacts, ∀ v ∈ w.vecLocals, ∃ e ∈ heapSpec, e.file = w.file ∧ e.func = w.func ∧ e.name = v ∧
+      (e.cls = .secretWiped → v ∈ w.wiped ∧ w.usesAfterWipe = 0 ∧ w.exitsBeforeWipe = 0)) ∧
+    (∀ e ∈ heapSpec, ∃ w ∈ wipeFacts, w.file = e.file ∧ w.func = e.func ∧ e.name ∈ w.vecLocals) := by
+  decide +kernel
+
+/-- The secret-derived entries of `heapSpec` are exactly the wipe obligations of `heap_wiped`. -/
+theorem secret_heap_is_obligation :
+    (∀ e ∈ heapSpec, e.cls = .secretWiped → ∃ o ∈ wipeObligations, o.file = e.file ∧ o.func = e.func ∧ o.vec = e.name) ∧
+    (∀ o ∈ wipeObligations, ∃ e ∈ heapSpec, e.cls = .secretWiped ∧ o.file = e.file ∧ o.func = e.func ∧ o.vec = e.name) := by
+  decide +kernel
+
+/-- Every function on the constant-time call paths (`ctPathFns`: scalar multiplication, multiscalar
+multiplication, basepoint tables, compression, the Montgomery ladder, scalar arithmetic / inversion / recoding,
+lookup-table construction and selection, Ed25519 signing and key expansion, X25519) was seen by the inventory.
+Hence, by `ct_vecs_accounted`, such a function contains no heap-allocation marker other than those in `heapSpec`.
+(Limits: the markers are syntactic; an allocation made *inside a dependency* — `to_pkcs8_der`, a `Digest`
+implementation — is not seen.) -/
+theorem ct_path_scanned :
+    ∀ f ∈ ctPathFns, ∃ p ∈ scannedFns, p.1 = f.1 ∧ f.2 ∈ p.2 := by
   decide +kernel
 
 /-! ## 2. Allocation-event model -/
